@@ -39,6 +39,9 @@ def ex(e, env):
                 return env.fields[e[2]]
             raise Refuse(f"self.{e[2]}")
         raise Refuse(f"field .{e[2]}")
+    if k == "tuple":
+        parts = [ex(x, env) for x in e[1]]
+        return "(" + ", ".join(g for g, _ in parts) + ")", "Tuple(" + ",".join(t for _, t in parts) + ")"
     if k == "bin":
         (a, ta), (b, tb) = ex(e[2], env), ex(e[3], env)
         op = e[1]
@@ -327,3 +330,15 @@ def axis_forward(src):
     out += ("Definition linear_axis_forward (base : Iso) (axis : Z) (robot : Kin) (distance : R) (joint_angles : JL) : option Iso :=\n"
             f"  match axis_translation axis distance with Some cart_translation => Some ({g}) | None => None end.\n\n")
     return out
+
+
+def frame_forward_transformed(src):
+    params, body = fn_body(src, "impl Frame {", "forward_transformed")
+    env = Env({"frame": ("frame", "Pose")}, "robot")
+    env.vars["qs"] = ("qs", "J")
+    env.vars["previous"] = ("previous", "J")
+    g, t = body_to_gallina(body, env)
+    if t != "Tuple(Sols,Pose)":
+        raise Refuse("Frame::forward_transformed result type " + t)
+    return ("Definition frame_forward_transformed (frame : Iso) (robot : Kin) (qs previous : JL) : list JL * Iso :=\n  "
+            + g + ".\n\n")
